@@ -11,42 +11,107 @@ variable {n : Nat}
 def BoundsOK (μ : Row n) (must may : List Nat) : Prop :=
   (∀ v ∈ must, (μ.get v).isSome = true) ∧ (∀ v, (μ.get v).isSome = true → v ∈ may)
 
-/-- `forget` with an exact annotation gives back the sub-pattern's own solution on the relevant variables -/
-theorem forget_scope {μ0 μ : Row n} {rel ann must may : List Nat}
-    (hs : scopeOK rel ann must may = true) (hb : BoundsOK μ must may) :
-    ∀ v ∈ rel, ((μ0.merge μ).forget μ0 ann).get v = μ.get v := by
+/-- every variable the row binds is listed -/
+def Row.domIn (μ : Row n) (L : List Nat) : Prop := ∀ v, (μ.get v).isSome = true → v ∈ L
+
+theorem Row.domIn_empty (L : List Nat) : (Row.empty : Row n).domIn L := by
+  intro v hv; simp [Row.get_empty] at hv
+
+/-- what `forget(μ0, _except = ann)` needs of the annotation: exact on every relevant variable that `μ0` binds -/
+def ForgetOK (μ0 : Row n) (rel ann must may : List Nat) : Prop :=
+  ∀ v ∈ rel, μ0.get v = none ∨ ((v ∈ ann → v ∈ must) ∧ (v ∈ may → v ∈ ann))
+
+/-- what `remember(ann)` needs: every variable the sub-pattern may bind is listed; a listed one that `μ0` binds is
+    bound by every solution of the sub-pattern -/
+def RememberOK (μ0 : Row n) (rel ann must may : List Nat) : Prop :=
+  ∀ v ∈ rel, (v ∈ may → v ∈ ann) ∧ (μ0.get v = none ∨ (v ∈ ann → v ∈ must))
+
+theorem ForgetOK.of_scopeOK {μ0 : Row n} {rel ann must may : List Nat} (hs : scopeOK rel ann must may = true) :
+    ForgetOK μ0 rel ann must may := by
   intro v hv
   simp only [scopeOK, List.all_eq_true, Bool.and_eq_true, Bool.or_eq_true, Bool.not_eq_eq_eq_not,
     Bool.not_true, List.contains_eq_mem, decide_eq_true_eq, decide_eq_false_iff_not] at hs
   obtain ⟨h1, h2⟩ := hs v hv
+  exact Or.inr ⟨fun ha => h1.resolve_left (fun h => h ha), fun hm => h2.resolve_left (fun h => h hm)⟩
+
+theorem RememberOK.of_scopeOK {μ0 : Row n} {rel ann must may : List Nat} (hs : scopeOK rel ann must may = true) :
+    RememberOK μ0 rel ann must may := by
+  intro v hv
+  simp only [scopeOK, List.all_eq_true, Bool.and_eq_true, Bool.or_eq_true, Bool.not_eq_eq_eq_not,
+    Bool.not_true, List.contains_eq_mem, decide_eq_true_eq, decide_eq_false_iff_not] at hs
+  obtain ⟨h1, h2⟩ := hs v hv
+  exact ⟨fun hm => h2.resolve_left (fun h => h hm), Or.inr (fun ha => h1.resolve_left (fun h => h ha))⟩
+
+theorem ForgetOK.of_scopeForget {μ0 : Row n} {ctx rel ann must may : List Nat} (h0 : μ0.domIn ctx)
+    (hs : scopeForget ctx rel ann must may = true) : ForgetOK μ0 rel ann must may := by
+  intro v hv
+  simp only [scopeForget, List.all_eq_true, Bool.and_eq_true, Bool.or_eq_true, Bool.not_eq_eq_eq_not,
+    Bool.not_true, List.contains_eq_mem, decide_eq_true_eq, decide_eq_false_iff_not] at hs
+  rcases hs v hv with h | ⟨h1, h2⟩
+  · left
+    cases hg : μ0.get v with
+    | none => rfl
+    | some t => exact absurd (h0 v (by simp [hg])) h
+  · exact Or.inr ⟨fun ha => h1.resolve_left (fun h => h ha), fun hm => h2.resolve_left (fun h => h hm)⟩
+
+theorem RememberOK.of_scopeRemember {μ0 : Row n} {ctx rel ann must may : List Nat} (h0 : μ0.domIn ctx)
+    (hs : scopeRemember ctx rel ann must may = true) : RememberOK μ0 rel ann must may := by
+  intro v hv
+  simp only [scopeRemember, List.all_eq_true, Bool.and_eq_true, Bool.or_eq_true, Bool.not_eq_eq_eq_not,
+    Bool.not_true, List.contains_eq_mem, decide_eq_true_eq, decide_eq_false_iff_not] at hs
+  obtain ⟨h2, h1⟩ := hs v hv
+  refine ⟨fun hm => h2.resolve_left (fun h => h hm), ?_⟩
+  rcases h1 with (h | h) | h
+  · left
+    cases hg : μ0.get v with
+    | none => rfl
+    | some t => exact absurd (h0 v (by simp [hg])) h
+  · exact Or.inr (fun ha => absurd ha h)
+  · exact Or.inr (fun _ => h)
+
+theorem scopeForget_of_scopeOK {ctx rel ann must may : List Nat} (hs : scopeOK rel ann must may = true) :
+    scopeForget ctx rel ann must may = true := by
+  simp only [scopeOK, List.all_eq_true] at hs
+  simp only [scopeForget, List.all_eq_true]
+  intro i hi
+  rw [hs i hi]; simp
+
+theorem scopeRemember_of_scopeOK {ctx rel ann must may : List Nat} (hs : scopeOK rel ann must may = true) :
+    scopeRemember ctx rel ann must may = true := by
+  simp only [scopeOK, List.all_eq_true, Bool.and_eq_true] at hs
+  simp only [scopeRemember, List.all_eq_true, Bool.and_eq_true]
+  intro i hi
+  obtain ⟨h1, h2⟩ := hs i hi
+  refine ⟨h2, ?_⟩
+  cases hc : ctx.contains i <;> simp_all
+
+/-- `forget` with an annotation that is exact where the context binds gives back the sub-pattern's own solution on
+    the relevant variables -/
+theorem forget_scope {μ0 μ : Row n} {rel ann must may : List Nat}
+    (hs : ForgetOK μ0 rel ann must may) (hb : BoundsOK μ must may) :
+    ∀ v ∈ rel, ((μ0.merge μ).forget μ0 ann).get v = μ.get v := by
+  intro v hv
   rw [Row.get_forget, Row.get_merge]
   cases h0 : μ0.get v with
   | none => simp
   | some z =>
+    obtain ⟨h1, h2⟩ := (hs v hv).resolve_left (by rw [h0]; simp)
     by_cases hann : v ∈ ann
-    · have hm : v ∈ must := by
-        rcases h1 with h | h
-        · exact absurd hann h
-        · exact h
-      have := hb.1 v hm
+    · have := hb.1 v (h1 hann)
       cases hμ : μ.get v with
       | none => rw [hμ] at this; cases this
       | some y => simp [hann]
-    · have hnm : v ∉ may := by
-        rcases h2 with h | h
-        · exact h
-        · exact absurd h hann
-      have : μ.get v = none := by
+    · have : μ.get v = none := by
         cases hμ : μ.get v with
         | none => rfl
-        | some y => exact absurd (hb.2 v (by simp [hμ])) hnm
+        | some y => exact absurd (h2 (hb.2 v (by simp [hμ]))) hann
       simp [hann, this]
 
 /-- evalFilter (expression without EXISTS) -/
 theorem pushdown_filter {D : Dataset} {g : Graph} {μ0 : Row n} {Ω XP : List (Row n)} {e : Expr}
     {ann must may : List Nat}
     (hp : XP.Perm (push μ0 Ω)) (hok : ExprOK D g n e)
-    (hs : scopeOK e.vars ann must may = true) (hb : ∀ μ ∈ Ω, BoundsOK μ must may) :
+    (hs : ForgetOK μ0 e.vars ann must may) (hb : ∀ μ ∈ Ω, BoundsOK μ must may) :
     (XP.filter fun c => isTrue (Model.evalExpr D g (c.forget μ0 ann) e)).Perm
       (push μ0 (Ω.filter fun μ => isTrue (Spec.evalExpr D g Row.empty μ e))) := by
   refine (hp.filter _).trans ?_
@@ -99,7 +164,7 @@ def extendStepS (D : Dataset) (g : Graph) (v : Nat) (e : Expr) (μ : Row n) : Ro
 theorem pushdown_extend {D : Dataset} {g : Graph} {μ0 : Row n} {Ω XP : List (Row n)} {e : Expr} {v : Nat}
     {ann must may : List Nat}
     (hp : XP.Perm (push μ0 Ω)) (hok : ExprOK D g n e)
-    (hs : scopeOK e.vars ann must may = true) (hb : ∀ μ ∈ Ω, BoundsOK μ must may)
+    (hs : ForgetOK μ0 e.vars ann must may) (hb : ∀ μ ∈ Ω, BoundsOK μ must may)
     (hv : v ∉ may) :
     (XP.filterMap (extendStepM D g μ0 v e ann)).Perm (push μ0 (Ω.map (extendStepS D g v e))) := by
   refine (hp.filterMap _).trans ?_
